@@ -189,6 +189,45 @@ class Shard:
                 'exhaustive': self.exhaustive, 'extra': self.extra}
 
 
+class CaseTimeout(BaseException):
+    """Raised in the main thread when one case exceeds its wall-clock limit (BaseException: not a verdict, never swallowed by
+    the drivers' ``except Exception``)."""
+
+
+@contextlib.contextmanager
+def time_limit(seconds):
+    import signal
+
+    def handler(signum, frame):
+        raise CaseTimeout()
+    old = signal.signal(signal.SIGALRM, handler)
+    signal.alarm(int(seconds))
+    try:
+        yield
+    finally:
+        signal.alarm(0)
+        signal.signal(signal.SIGALRM, old)
+
+
+def guarded(sh, fn, *a, limit=240, **k):
+    """Run one case under a generous wall-clock limit.  CPython's multiprocessing.Pool can deadlock in terminate() (seen under
+    load: workers exited, parent blocked on a SemLock); such a case is abandoned and counted, it is neither a violation nor held."""
+    from . import attach
+    try:
+        with time_limit(limit):
+            return fn(*a, **k)
+    except CaseTimeout:
+        sh.note('case_abandoned_after_%ds_wall_clock(pool_deadlock?)' % limit)
+        sh.extra['cases_abandoned'] = sh.extra.get('cases_abandoned', 0) + 1
+        attach.take_violations()
+        try:
+            import matplotlib.pyplot as plt
+            plt.close('all')
+        except Exception:
+            pass
+        return None
+
+
 @contextlib.contextmanager
 def quiet():
     """Capture stdout/stderr of the code under test and record warnings by category."""
@@ -246,7 +285,12 @@ def shard_main(argv):
     res['bycycle_file'] = bycycle.__file__
     with open(a.out, 'w') as f:
         json.dump(res, f)
-    return 0
+        f.flush()
+        os.fsync(f.fileno())
+    sys.stdout.flush()
+    sys.stderr.flush()
+    # skip atexit handlers: a Pool left half-terminated by an abandoned case would make multiprocessing's exit function hang
+    os._exit(0)
 
 
 # ------------------------------------------------------------------------------------------------
